@@ -370,14 +370,28 @@ theorem toBool_eq {s s' : St} (h : Inv s) {v : Nat} (hv : v < s.n) {r : Bool}
     obtain ⟨rfl, rfl⟩ := e
     have : c = [] := List.eq_nil_of_length_eq_zero (by omega)
     exact ⟨by simp [toBoolFalse, this], fun _ => rfl⟩
-  · simp only [l0, if_false, Option.bind_eq_some_iff, Option.pure_def, Option.some.injEq, Prod.mk.injEq] at e
-    obtain ⟨s1, h1, cc, h2, a, h3, rfl, rfl⟩ := e
-    obtain ⟨E, t⟩ := eff_cview h hv h1
-    have ea := cstrVar_eq E.inv t (by rw [E.self]; exact hc) hz
-    rw [ea] at h3; injection h3 with h3; subst h3
-    rw [contentVal_eq E.inv, E.self, hc] at h2
-    injection h2 with h2; subst h2
-    exact ⟨toBool_spec c hz, E.silent.abs⟩
+  · simp only [l0, if_false, contentVal_eq h, hc, Option.map_some, Option.bind_eq_some_iff] at e
+    obtain ⟨z, hz1, e⟩ := e
+    by_cases cz : z = true
+    · subst cz
+      simp only [if_true, Option.pure_def, Option.some.injEq, Prod.mk.injEq] at e
+      obtain ⟨rfl, rfl⟩ := e
+      have c48 : c = [48] := by
+        by_cases l1 : d.len = 1
+        · simp only [l1, if_true, Option.some.injEq, beq_iff_eq] at hz1; exact hz1
+        · simp [l1] at hz1
+      exact ⟨by simp [toBoolFalse, c48], fun _ => rfl⟩
+    · have cz' : z = false := by simpa using cz
+      subst cz'
+      simp only [Bool.false_eq_true, if_false, Option.bind_eq_some_iff, Option.pure_def, Option.some.injEq,
+        Prod.mk.injEq] at e
+      obtain ⟨s1, h1, cc, h2, a, h3, rfl, rfl⟩ := e
+      obtain ⟨E, t⟩ := eff_cview h hv h1
+      have ea := cstrVar_eq E.inv t (by rw [E.self]; exact hc) hz
+      rw [ea] at h3; injection h3 with h3; subst h3
+      rw [contentVal_eq E.inv, E.self, hc] at h2
+      injection h2 with h2; subst h2
+      exact ⟨toBool_spec c hz, E.silent.abs⟩
 
 theorem queries_total2 {s : St} (h : Inv s) {v w : Nat} (hv : v < s.n) {a b : List Nat}
     (ha : allSome (absVar s v) = some a) (hb : allSome (absVar s w) = some b) (hza : 0 ∉ a)
@@ -517,8 +531,15 @@ theorem queries_total3 {s : St} (h : Inv s) {v w : Nat} (hv : v < s.n) (hw : w <
   · simp only [toBool, hdv, Option.bind_eq_bind, Option.bind_some]
     by_cases l0 : dv.len = 0
     · simp [l0]
-    · simp only [l0, if_false, g1, Option.bind_some, contentVal_eq E.inv, E.self, ha, ca, Option.pure_def,
-        Option.isSome_some]
+    · simp only [l0, if_false, contentVal_eq h, ha, Option.map_some]
+      by_cases l1 : dv.len = 1
+      · simp only [l1, if_true, Option.bind_some]
+        by_cases c48 : (a == [48]) = true
+        · simp [c48]
+        · simp only [c48, Bool.false_eq_true, if_false, g1, Option.bind_some, contentVal_eq E.inv, E.self, ha, ca,
+            Option.pure_def, Option.isSome_some]
+      · simp only [l1, if_false, Option.bind_some, Bool.false_eq_true, g1, contentVal_eq E.inv, E.self, ha, ca,
+          Option.pure_def, Option.isSome_some]
   · simp only [equalsIC, hdv, hdw, Option.bind_eq_bind, Option.bind_some]
     split
     · rfl
